@@ -1,6 +1,7 @@
 package pebbles
 
 import (
+	"bytes"
 	"context"
 	"encoding/json"
 	"log"
@@ -32,6 +33,23 @@ func (sd subscriptionDict) CleanAll() {
 	}
 }
 
+// writeServerFrame hands a whole frame to the connection in one Write call.
+// Several goroutines (every subscription's listener, the heartbeat, the handler)
+// write to the same connection; single Write calls are atomic with respect to
+// each other, a header and a payload written separately are not.
+func writeServerFrame(conn net.Conn, frame ws.Frame) error {
+	var buf bytes.Buffer
+	if err := ws.WriteFrame(&buf, frame); err != nil {
+		return err
+	}
+	_, err := conn.Write(buf.Bytes())
+	return err
+}
+
+func writeServerText(conn net.Conn, p []byte) error {
+	return writeServerFrame(conn, ws.NewTextFrame(p))
+}
+
 func sendHeartbeat(ctx context.Context, conn net.Conn) error {
 	timeTicker := time.NewTicker(time.Second * 4)
 	defer timeTicker.Stop()
@@ -44,7 +62,7 @@ func sendHeartbeat(ctx context.Context, conn net.Conn) error {
 		select {
 		case <-timeTicker.C:
 			common.VerifPoint(0, "sub.heartbeat.tick")
-			if err := wsutil.WriteServerText(conn, bMsg); err != nil {
+			if err := writeServerText(conn, bMsg); err != nil {
 				return err
 			}
 		case <-ctx.Done():
@@ -84,13 +102,7 @@ func (g *Gateway) subscriptionHandler(w http.ResponseWriter, r *http.Request) {
 
 		// gracefully close connection
 		body := ws.NewCloseFrameBody(ws.StatusNormalClosure, "")
-		frame := ws.NewCloseFrame(body)
-		if err := ws.WriteHeader(conn, frame.Header); err != nil {
-			return
-		}
-		if _, err := conn.Write(body); err != nil {
-			return
-		}
+		writeServerFrame(conn, ws.NewCloseFrame(body))
 	}()
 
 	for {
@@ -115,7 +127,7 @@ func (g *Gateway) subscriptionHandler(w http.ResponseWriter, r *http.Request) {
 			if err != nil {
 				return
 			}
-			if err := wsutil.WriteServerText(conn, bresp); err != nil {
+			if err := writeServerText(conn, bresp); err != nil {
 				return
 			}
 			// start sending heartbeat
